@@ -436,7 +436,8 @@ fn pick_threshold_f32(rng: &mut Rng, m: &[Vec<u32>], big: bool) -> u32 {
 }
 
 fn gen_f32(rng: &mut Rng, id: usize, sid: usize, tier: &str, cols: usize) -> String {
-    let rows = pick_rows(rng, tier, id);
+    // (48 columns: at most 2000 rows, i.e. the same number of cells as 3000 rows of 32)
+    let rows = pick_rows(rng, tier, id).min(if cols == 48 { 2000 } else { usize::MAX });
     let family = if rng.chance(1, 12) { 7 } else { rng.below(7) };
     let mut m: Vec<Vec<u32>> = vec![];
     let cfam = rng.below(7);
@@ -468,7 +469,18 @@ fn gen_f32(rng: &mut Rng, id: usize, sid: usize, tier: &str, cols: usize) -> Str
         3 if rows <= 4 => (u32::MAX as usize) + rng.below(3) as usize,
         _ => (rows * cols).saturating_sub(rng.below(cols as u64 + 1) as usize),
     };
-    let t = pick_threshold_f32(rng, &m, rows > 80);
+    let mut t = pick_threshold_f32(rng, &m, rows > 80);
+    // large matrices: keep the qualifying set small (long hit lists are exercised on the
+    // small matrices; here they only cost time in the model) -- nothing qualifies instead
+    if rows > 80 {
+        let tf = f32::from_bits(t);
+        let hits = m.iter().flatten().filter(|&&b| f32::from_bits(b) >= tf).count();
+        if hits > 2048 {
+            let mx = f32_max_bits(&m).unwrap();
+            // (a maximum of +inf cannot be excluded: the set of +inf cells is kept)
+            t = if mx == PINF { PINF } else { next_up(mx) };
+        }
+    }
     format!(
         "{} k={} R={} mi={} t={} m={}",
         id,
@@ -531,6 +543,10 @@ fn gen_u8(rng: &mut Rng, id: usize, sid: usize, tier: &str) -> String {
         8 if !flat.is_empty() && rows <= 80 => *rng.pick(&flat),
         _ => mx.saturating_sub(rng.below(3) as u32),
     };
+    let mut t = t;
+    if rows > 80 && flat.iter().filter(|&&v| v >= t).count() > 2048 && mx < 255 {
+        t = mx + 1;
+    }
     format!("{} k=u8 R={} mi={} t={} m={}", id, rows, mi, t, show_matrix(&m))
 }
 
